@@ -275,6 +275,19 @@ func checkUnfiltered(r *core.Run, m string, gs *types.Named, st *types.Struct, e
 // closure that appends its argument and never asks to stop). In both forms the
 // record must be decoded into a variable that is fresh in every iteration.
 func getterExportsAll(r *core.Run, g *ssa.Function) string {
+	// a paginated walk is never complete: query.Paginate turns a nil / zero-limit page request into DefaultLimit (100)
+	for f := range r.P.CG.Reach(g) {
+		res := r.Resolver(f)
+		for _, b := range f.Blocks {
+			for _, ins := range b.Instrs {
+				if c, ok := ins.(ssa.CallInstruction); ok {
+					if name, _ := res.CalleeName(c.Common()); name == "cosmos/types/query.Paginate" || name == "cosmos/types/query.FilteredPaginate" {
+						return "it walks the store through " + name + " (" + r.P.Pos(c.Pos()) + "), which stops after the page limit — DefaultLimit = 100 records when no page request is given — so records beyond the first page are not exported"
+					}
+				}
+			}
+		}
+	}
 	loops := cfgx.Loops(g)
 	if len(loops) == 0 {
 		return getterViaCallback(r, g)
